@@ -154,79 +154,66 @@ end Asynkit.Deque
 namespace Asynkit.Deque
 variable {α : Type}
 
-theorem revScan_skip (key : α → Bool) (P : List α) (x : α) (R : List α) (k : Nat)
-    (hP : ∀ b ∈ P, key b = false) (hx : key x = true) :
-    revScan key (P ++ x :: R) k = some (k + P.length, x) := by
-  induction P generalizing k with
-  | nil => simp [revScan, hx]
-  | cons a P ih =>
-    have ha : key a = false := hP a (by simp)
-    simp only [List.cons_append, revScan, ha]
-    rw [ih (k + 1) (fun b hb => hP b (by simp [hb]))]
-    simp; omega
+theorem remove_mid [BEq α] [LawfulBEq α] (A B : List α) (x : α) (hA : x ∉ A) :
+    remove (A ++ x :: B) x = some (A ++ B) := by
+  unfold remove
+  have : (A ++ x :: B).contains x = true := by simp
+  rw [this, if_pos rfl, List.erase_append_right _ hA]
+  simp
 
-theorem revScan_none (key : α → Bool) (l : List α) (k : Nat) (h : ∀ b ∈ l, key b = false) :
-    revScan key l k = none := by
-  induction l generalizing k with
-  | nil => rfl
-  | cons a l ih =>
-    simp only [revScan, h a (by simp)]
-    exact ih (k + 1) (fun b hb => h b (by simp [hb]))
-
-theorem dequePop_mid (A B : List α) (x : α) :
-    dequePop (A ++ x :: B) (((A ++ x :: B).length : Int) - (B.length : Int) - 1) = some (x, A ++ B) := by
-  have e : (((A ++ x :: B).length : Int) - (B.length : Int) - 1) = (A.length : Int) := by
-    simp [List.length_append]; omega
-  rw [e, dequePop_nat _ _ (by simp [List.length_append])]
-  simp [List.eraseIdx_append_of_length_le]
+theorem remove_absent [BEq α] [LawfulBEq α] (q : List α) (x : α) (h : x ∉ q) : remove q x = none := by
+  unfold remove
+  have : q.contains x = false := by simpa using h
+  rw [this]; rfl
 
 /-- `queue_find`: the match closest to the tail is returned, and (with `remove`) exactly it is
     taken out; nothing else moves. -/
-theorem queueFind_last (A B : List α) (x : α) (key : α → Bool) (rm : Bool)
-    (hx : key x = true) (hB : ∀ b ∈ B, key b = false) :
+theorem queueFind_last [BEq α] [LawfulBEq α] (A B : List α) (x : α) (key : α → Bool) (rm : Bool)
+    (hx : key x = true) (hB : ∀ b ∈ B, key b = false) (hA : x ∉ A) :
     queueFind (A ++ x :: B) key rm = (some x, if rm then A ++ B else A ++ x :: B) := by
   unfold queueFind
-  have hr : (A ++ x :: B).reverse = B.reverse ++ x :: A.reverse := by simp
-  rw [hr, revScan_skip key B.reverse x A.reverse 0 (by simpa using hB) hx]
-  simp only [Nat.zero_add, List.length_reverse]
+  have hr : (A ++ x :: B).reverse.find? key = some x := by
+    rw [List.reverse_append, List.reverse_cons, List.append_assoc, List.find?_append]
+    have : B.reverse.find? key = none := by
+      rw [List.find?_eq_none]; intro b hb; simpa using hB b (by simpa using hb)
+    rw [this]
+    simp [hx]
+  rw [hr]
   cases rm
   · simp
   · simp only [if_true]
-    rw [dequePop_mid]
+    rw [remove_mid A B x hA]
 
-theorem queueFind_absent (q : List α) (key : α → Bool) (rm : Bool) (h : ∀ b ∈ q, key b = false) :
+theorem queueFind_absent [BEq α] (q : List α) (key : α → Bool) (rm : Bool) (h : ∀ b ∈ q, key b = false) :
     queueFind q key rm = (none, q) := by
   unfold queueFind
-  rw [revScan_none key q.reverse 0 (by simpa using h)]
+  have : q.reverse.find? key = none := by
+    rw [List.find?_eq_none]; intro b hb; simpa using h b (by simpa using hb)
+  rw [this]
 
-theorem queueRemove_last [BEq α] [LawfulBEq α] (A B : List α) (x : α) (hB : x ∉ B) :
-    queueRemove (A ++ x :: B) x = some (A ++ B) := by
-  unfold queueRemove
-  have hr : (A ++ x :: B).reverse = B.reverse ++ x :: A.reverse := by simp
-  rw [hr, revScan_skip (fun y => y == x) B.reverse x A.reverse 0
-    (by intro b hb; simp at hb; simp; intro h; exact hB (h ▸ hb)) (by simp)]
-  simp only [Nat.zero_add, List.length_reverse]
-  rw [dequePop_mid]
+theorem queueRemove_mid [BEq α] [LawfulBEq α] (A B : List α) (x : α) (hA : x ∉ A) :
+    queueRemove (A ++ x :: B) x = some (A ++ B) := remove_mid A B x hA
 
 theorem queueRemove_absent [BEq α] [LawfulBEq α] (q : List α) (x : α) (h : x ∉ q) :
-    queueRemove q x = none := by
-  unfold queueRemove
-  rw [revScan_none (fun y => y == x) q.reverse 0
-    (by intro b hb; simp at hb; simp; intro e; exact h (e ▸ hb))]
+    queueRemove q x = none := remove_absent q x h
 
-theorem callPos_nat (q : List α) (p : Nat) (h : α) :
+theorem callPos_nat [BEq α] [LawfulBEq α] (q : List α) (p : Nat) (h : α) (hq : h ∉ q) :
     callPos q (p : Int) h = q.insertIdx (min p q.length) h := by
-  unfold callPos pop
-  rw [List.getLast?_concat, List.dropLast_concat]
+  unfold callPos
+  have := remove_mid q [] h hq
+  simp only [List.append_nil] at this
+  rw [this]
   unfold insert
   have : ¬ ((p : Int) < 0) := by omega
   simp [this]
 
 /-- negative positions count from the tail and are clamped at the head, like `list.insert` -/
-theorem callPos_neg (q : List α) (k : Nat) (hk : 0 < k) (h : α) :
+theorem callPos_neg [BEq α] [LawfulBEq α] (q : List α) (k : Nat) (hk : 0 < k) (h : α) (hq : h ∉ q) :
     callPos q (-(k : Int)) h = q.insertIdx (q.length - k) h := by
-  unfold callPos pop
-  rw [List.getLast?_concat, List.dropLast_concat]
+  unfold callPos
+  have := remove_mid q [] h hq
+  simp only [List.append_nil] at this
+  rw [this]
   unfold insert
   have : (-(k : Int)) < 0 := by omega
   simp only [this, if_true]
